@@ -1,10 +1,16 @@
 (* Property C14: account migration moves everything, once, to the address that authorised it.
    `migrate_tx` = ValidateBasic + MigrateAccount on the model state (coq/model/M_Migrate.v);
    `recover` (signature recovery over keccak(prefix, from, to)) is universally quantified;
-   `moved`, `wf`, `qcoverb`, `seen_*`, `involved_open`, `idx*_ok` are defined in coq/model/M_MigrateSpec.v. *)
+   `moved`, `wf`, `qcoverb`, `seen_*`, `involved_open`, `idx*_ok` are defined in coq/model/M_MigrateSpec.v.
+   The theorems of the first part take the shape of the state (wf, qcoverb, balposb, idx36_ok, govwfb) as hypotheses;
+   the last part (theorems C14_reachable_... and C14_reach_...) discharges them: they hold on every state reachable from `init` by
+   the operations of the history model (coq/model/M_MigrateHistory.v), and every step theorem is restated there for
+   `reached e ops` without them. *)
 From Coq Require Import ZArith List Bool.
 From FxV Require Import gen.Gen_C14 model.M_Migrate model.M_MigrateSpec model.M_MigrateCorr model.M_MigrateFollow
-  proofs.P_MigrateMature proofs.P_MigrateHist proofs.P_Migrate proofs.P_MigrateFollow proofs.P_MigrateFollowR.
+  model.M_MigrateHistory
+  proofs.P_MigrateMature proofs.P_MigrateHist proofs.P_Migrate proofs.P_MigrateFollow proofs.P_MigrateFollowR
+  proofs.P_MigrateReach proofs.P_MigrateReachThm.
 Import ListNotations.
 Open Scope Z_scope.
 
@@ -290,3 +296,163 @@ Theorem C14_moved_nonvacuous :
   bal_of (staking_endblock 600 ex_after) 1 0 = 0.
 Proof. exact moved_nonvacuous. Qed.
 Print Assumptions C14_moved_nonvacuous.
+
+(* ==================== the hypotheses hold on every reachable state ====================
+   History model (coq/model/M_MigrateHistory.v): `hstep` = one of migrate, end of block, submit / deposit / vote,
+   restart from exported genesis, delegate / undelegate / withdraw / redelegate, validator slash, gov and staking
+   parameter changes, coins arriving, account creation; `reached e ops = snd (hrun (e, init) ops)`.
+   `Inv` = wfP /\ qcoverP /\ ent_ok (no entry on hold, no negative entry balance) /\ balposP (no negative balance
+   outside the two module accounts) /\ idx36_ok /\ govI (queues <-> proposals in both directions, votes only on voting
+   proposals, ids below the counter, deposits non-negative) /\ acct_ok (module accounts have no key).
+   NAMED ENVIRONMENTAL ASSUMPTION `sane_env env ask`: the validator-side answers (F1 reward, tokens for shares, shares
+   for tokens) are non-negative amounts.  Nothing else is assumed. *)
+Theorem C14_reachable_invariant :
+  Inv init /\
+  forall (sigT : Type) (recover : Z -> Z -> sigT -> option Z)
+         (env : Type) (ask : env -> query -> vans) (env_next : env -> query -> env),
+  sane_env env ask ->
+  (forall es o, Inv (snd es) -> Inv (snd (hstep sigT recover env ask env_next es o))) /\
+  (forall e ops, Inv (reached sigT recover env ask env_next e ops)).
+Proof.
+  split; [exact init_inv|]. intros sigT recover env ask env_next Sane. split.
+  - apply hstep_inv. exact Sane.
+  - apply reach_inv. exact Sane.
+Qed.
+Print Assumptions C14_reachable_invariant.
+
+(* ... in the decidable forms the step theorems above take (and the correspondence run evaluates on the real states) *)
+Theorem C14_reachable_hypotheses : forall (sigT : Type) (recover : Z -> Z -> sigT -> option Z)
+    (env : Type) (ask : env -> query -> vans) (env_next : env -> query -> env),
+  sane_env env ask -> forall e ops, let s := reached sigT recover env ask env_next e ops in
+  wf s /\ qcoverb s = true /\ idx36_ok s /\ govwfb s = true /\ queued_exist s /\ invb s = true /\
+  (forall a d, a <> pool_nb (cfg s) -> a <> gov_acc (cfg s) -> 0 <= bal_of s a d).
+Proof. exact reached_hyps. Qed.
+Print Assumptions C14_reachable_hypotheses.
+
+Theorem C14_reach_moves_everything : forall (sigT : Type) (recover : Z -> Z -> sigT -> option Z)
+    (env : Type) (ask : env -> query -> vans) (env_next : env -> query -> env),
+  sane_env env ask -> forall e ops from to sg s', let s := reached sigT recover env ask env_next e ops in
+  migrate_tx sigT recover s from to sg = Ok s' -> moved from to s s'.
+Proof. exact reach_moves_everything. Qed.
+Print Assumptions C14_reach_moves_everything.
+
+Theorem C14_reach_queue_others_untouched : forall (sigT : Type) (recover : Z -> Z -> sigT -> option Z)
+    (env : Type) (ask : env -> query -> vans) (env_next : env -> query -> env),
+  sane_env env ask -> forall e ops from to sg s', let s := reached sigT recover env ask env_next e ops in
+  migrate_tx sigT recover s from to sg = Ok s' ->
+  forall t i, (forall p : Z * Z, fst p <> from -> nth_error (ubd_slice s t) i = Some p -> nth_error (ubd_slice s' t) i = Some p) /\
+              (forall p : Z * (Z * Z), fst p <> from -> nth_error (red_slice s t) i = Some p -> nth_error (red_slice s' t) i = Some p) /\
+              length (ubd_slice s' t) = length (ubd_slice s t).
+Proof. exact reach_queue_others. Qed.
+Print Assumptions C14_reach_queue_others_untouched.
+
+(* the state after an accepted migration is itself reachable (one more operation), with the invariant *)
+Theorem C14_reach_wf_preserved : forall (sigT : Type) (recover : Z -> Z -> sigT -> option Z)
+    (env : Type) (ask : env -> query -> vans) (env_next : env -> query -> env),
+  sane_env env ask -> forall e ops from to sg s', let s := reached sigT recover env ask env_next e ops in
+  migrate_tx sigT recover s from to sg = Ok s' ->
+  s' = reached sigT recover env ask env_next e (ops ++ [HMigrate sigT from to sg]) /\ Inv s'.
+Proof. exact reach_wf_preserved. Qed.
+Print Assumptions C14_reach_wf_preserved.
+
+Theorem C14_reach_matured_funds : forall (sigT : Type) (recover : Z -> Z -> sigT -> option Z)
+    (env : Type) (ask : env -> query -> vans) (env_next : env -> query -> env),
+  sane_env env ask -> forall e ops from to sg s', let s := reached sigT recover env ask env_next e ops in
+  migrate_tx sigT recover s from to sg = Ok s' ->
+  forall t,
+  (forall a v, ubd_of (staking_endblock t s') a v =
+     sel from to a (option_map (to_ubd to) (ubd_of (staking_endblock t s) from v)) None (ubd_of (staking_endblock t s) a v)) /\
+  (from <> pool_nb (cfg s) -> to <> pool_nb (cfg s) -> forall a d, a <> pool_nb (cfg s) ->
+     bal_of (staking_endblock t s') a d =
+       sel from to a (bal_of (staking_endblock t s) to d + bal_of (staking_endblock t s) from d) 0
+                     (bal_of (staking_endblock t s) a d)).
+Proof. exact reach_matured_funds. Qed.
+Print Assumptions C14_reach_matured_funds.
+
+Theorem C14_reach_endblock_pays : forall (sigT : Type) (recover : Z -> Z -> sigT -> option Z)
+    (env : Type) (ask : env -> query -> vans) (env_next : env -> query -> env),
+  sane_env env ask -> forall e ops t, let s := reached sigT recover env ask env_next e ops in
+  (forall a v, ubd_of (staking_endblock t s) a v = immature_opt t (ubd_of s a v)) /\
+  (forall a d, a <> pool_nb (cfg s) ->
+     bal_of (staking_endblock t s) a d = bal_of s a d + (if d =? bond_denom (cfg s) then payout t s a else 0)).
+Proof. exact reach_endblock_pays. Qed.
+Print Assumptions C14_reach_endblock_pays.
+
+(* NAMED ASSUMPTION besides sane_env: neither party is the not-bonded pool and the target is not the gov module
+   account (module accounts have no key and cannot sign; their balances are validator-side / tally-side quantities) *)
+Theorem C14_reach_followups_commute : forall (sigT : Type) (recover : Z -> Z -> sigT -> option Z)
+    (env : Type) (ask : env -> query -> vans) (env_next : env -> query -> env),
+  sane_env env ask -> forall e ops from to sg s' e0 fops e1 t, let s := reached sigT recover env ask env_next e ops in
+  pool_nb (cfg s) <> from -> pool_nb (cfg s) <> to -> gov_acc (cfg s) <> to ->
+  migrate_tx sigT recover s from to sg = Ok s' ->
+  (forall o, In o fops -> factor o <> to) ->
+  fruns env ask env_next e0 s fops = Ok (e1, t) ->
+  exists t', fruns env ask env_next e0 s' (map (ren_fop from to) fops) = Ok (e1, t') /\ sim2 from to t t'.
+Proof. exact reach_followups_commute. Qed.
+Print Assumptions C14_reach_followups_commute.
+
+(* the by-destination redelegation index is exact on every reachable state and stays so; the other four indexes are
+   kept exact by the migration wherever they are exact (their exactness on the real states is evaluated on every
+   pre-state of the correspondence run: idxallb) *)
+Theorem C14_reach_indexes : forall (sigT : Type) (recover : Z -> Z -> sigT -> option Z)
+    (env : Type) (ask : env -> query -> vans) (env_next : env -> query -> env),
+  sane_env env ask -> forall e ops from to sg s', let s := reached sigT recover env ask env_next e ops in
+  migrate_tx sigT recover s from to sg = Ok s' ->
+  idx36_ok s' /\ (idx71_ok s -> idx71_ok s') /\ (idx33_ok s -> idx33_ok s') /\ (idx35_ok s -> idx35_ok s') /\
+  (idx38_ok s -> idx38_ok s') /\
+  (forall kv e, In kv (ubds (stake s)) -> fst (fst kv) = from -> In e (u_entries (snd kv)) ->
+     exists k, sget Z.eqb (ue_id e) (unbidx (stake s')) = Some k /\ In (ue_id e, k) (unb_writes from to s)) /\
+  (forall kv e, In kv (reds (stake s)) -> fst (fst kv) = from -> In e (r_entries (snd kv)) ->
+     exists k, sget Z.eqb (re_id e) (unbidx (stake s')) = Some k /\ In (re_id e, k) (unb_writes from to s)).
+Proof. exact reach_indexes. Qed.
+Print Assumptions C14_reach_indexes.
+
+Theorem C14_reach_source_emptied : forall (sigT : Type) (recover : Z -> Z -> sigT -> option Z)
+    (env : Type) (ask : env -> query -> vans) (env_next : env -> query -> env),
+  sane_env env ask -> forall e ops from to sg s', let s := reached sigT recover env ask env_next e ops in
+  migrate_tx sigT recover s from to sg = Ok s' ->
+  (forall d, bal_of s' from d = 0) /\
+  (forall d x, sget k2_eqb (from, d) (bal s) = Some x -> locked_of s from d <= 0) /\
+  accts s' = accts s /\ locked s' = locked s.
+Proof. exact reach_source_emptied. Qed.
+Print Assumptions C14_reach_source_emptied.
+
+Theorem C14_reach_gov_block : forall (sigT : Type) (recover : Z -> Z -> sigT -> option Z)
+    (env : Type) (ask : env -> query -> vans) (env_next : env -> query -> env),
+  sane_env env ask -> forall e ops from to sg, let s := reached sigT recover env ask env_next e ops in
+  involved_open s from \/ involved_open s to -> forall s', migrate_tx sigT recover s from to sg <> Ok s'.
+Proof. exact reach_gov_block. Qed.
+Print Assumptions C14_reach_gov_block.
+
+Theorem C14_reach_gov_scan_exact : forall (sigT : Type) (recover : Z -> Z -> sigT -> option Z)
+    (env : Type) (ask : env -> query -> vans) (env_next : env -> query -> env),
+  sane_env env ask -> forall e ops from to, let s := reached sigT recover env ask env_next e ops in
+  (gov_validate from to s = Ok tt <-> ~ seen_inactive s from to /\ ~ seen_active s from to).
+Proof. exact reach_gov_exact. Qed.
+Print Assumptions C14_reach_gov_scan_exact.
+
+(* non-vacuity of all of the above: a reachable state (16 operations from `init`, environment `h_ask` with
+   sane_env proved) with delegations, an unbonding and a redelegation entry of account 1 and an open proposal of
+   account 2; the migration of 2 is refused by the governance rule, that of 1 is accepted, moves the records, rewrites
+   queue and id index, the matured funds go to 5, and the follow-ups 1 could have made are accepted for 5 *)
+Theorem C14_reach_nonvacuous :
+  sane_env Z h_ask /\
+  let s := reached unit sig_any Z h_ask h_next 0 ex_hist in
+  del_of s 1 13 = Some (D 1 13 700) /\ del_of s 1 14 = Some (D 1 14 200) /\
+  ubd_of s 1 13 = Some (U 1 13 [UE 3 1814420 100 100 102 0]) /\
+  red_of s 1 13 14 = Some (R 1 13 14 [RE 3 1814420 200 200 104 0]) /\
+  ubd_slice s 1814420 = [(1, 13); (3, 13)] /\ involved_open s 2 /\ bal_of s 1 0 = 99021 /\
+  migrate_tx unit sig_any s 2 6 (Some tt) = Err EGov /\
+  exists s', migrate_tx unit sig_any s 1 5 (Some tt) = Ok s' /\
+    del_of s' 5 13 = Some (D 5 13 700) /\ del_of s' 1 13 = None /\
+    ubd_of s' 5 13 = Some (U 5 13 [UE 3 1814420 100 100 102 0]) /\
+    red_of s' 5 13 14 = Some (R 5 13 14 [RE 3 1814420 200 200 104 0]) /\
+    ubd_slice s' 1814420 = [(5, 13); (3, 13)] /\ bal_of s' 5 0 = 99021 /\ bal_of s' 1 0 = 0 /\
+    sget Z.eqb 102 (unbidx (stake s')) = Some (UKubd 5 13) /\ sget Z.eqb 104 (unbidx (stake s')) = Some (UKred 5 13 14) /\
+    bal_of (staking_endblock 1814420 s') 5 0 = 99121 /\ bal_of (staking_endblock 1814420 s) 1 0 = 99121 /\
+    (exists t t', fruns Z h_ask h_next 7 s ex_follow = Ok (10, t) /\
+                  fruns Z h_ask h_next 7 s' (map (ren_fop 1 5) ex_follow) = Ok (10, t') /\
+                  del_of t 1 15 = Some (D 1 15 40) /\ del_of t' 5 15 = Some (D 5 15 40) /\
+                  bal_of t 1 0 = 98995 /\ bal_of t' 5 0 = 98995).
+Proof. split; [exact h_ask_sane | exact reach_example]. Qed.
+Print Assumptions C14_reach_nonvacuous.
